@@ -261,7 +261,7 @@ PROPS["C08"] = dict(
 )
 
 PROPS["C09"] = dict(
-    harness="c09_fmg", flavour="rel",
+    harness="c09_fmg", flavour="rel", env={"VERIF_MAX_SHRINK_EVALS": "150"},
     quick=dict(workers=16, cases=5600, min_nontrivial=300),
     thorough=dict(workers=16, cases=60000, min_nontrivial=3000, budget_s=3000),
     rule="Two parts. interp (2/3): fine/coarse level pairs (nr odd 9..41, ntheta%4==0 8..64, 1% >10000 nodes), half "
@@ -285,7 +285,7 @@ PROPS["C09"] = dict(
 )
 
 PROPS["C10"] = dict(
-    harness="c10_cycles", flavour="rel",
+    harness="c10_cycles", flavour="rel", env={"VERIF_MAX_SHRINK_EVALS": "150"},
     quick=dict(workers=16, cases=8000, min_nontrivial=300),
     thorough=dict(workers=16, cases=80000, min_nontrivial=3000, budget_s=3000),
     rule="A GMGPolar object after setup() (shipped smooth triples, grids 9x16..65x128, L in 2..5 via maxLevels, give/take, "
@@ -308,7 +308,7 @@ PROPS["C10"] = dict(
 )
 
 PROPS["C13"] = dict(
-    harness="c13_reuse", flavour="rel",
+    harness="c13_reuse", flavour="rel", env={"VERIF_MAX_SHRINK_EVALS": "60"},
     quick=dict(workers=16, cases=320, min_nontrivial=40),
     thorough=dict(workers=16, cases=6000, min_nontrivial=1000, budget_s=3000),
     rule="Histories of 2-4 rounds over one GMGPolar object: each round applies a (re)drawn option set through the setters "
@@ -354,7 +354,7 @@ PROPS["C19"] = dict(
 )
 
 PROPS["C01"] = dict(
-    harness="c01_solve", flavour="rel",
+    harness="c01_solve", flavour="rel", env={"VERIF_MAX_SHRINK_EVALS": "60"},
     quick=dict(workers=16, cases=640, min_nontrivial=100),
     thorough=dict(workers=16, cases=16000, min_nontrivial=3000, budget_s=3300),
     rule="Full option records through the public API: all 63 smooth non-Culham triples (geometry x 7 profiles x "
@@ -379,7 +379,7 @@ PROPS["C01"] = dict(
 )
 
 PROPS["C02"] = dict(
-    harness="c02_order", flavour="rel",
+    harness="c02_order", flavour="rel", env={"VERIF_MAX_SHRINK_EVALS": "24"},
     quick=dict(workers=16, cases=160, min_nontrivial=40),
     thorough=dict(workers=16, cases=1200, min_nontrivial=300, budget_s=3300),
     rule="Triples (CartesianR2/CartesianR6/PolarR6 x Circular/Shafranov/Czarny x 7 profiles, shipped shape parameters and "
@@ -403,7 +403,7 @@ PROPS["C02"] = dict(
 )
 
 PROPS["C20"] = dict(
-    harness="c20_options", flavour="asan", extra_targets={"asan": ["gmgpolar_cli"]},
+    harness="c20_options", flavour="asan", env={"VERIF_MAX_SHRINK_EVALS": "100"}, extra_targets={"asan": ["gmgpolar_cli"]},
     quick=dict(workers=16, cases=1600, min_nontrivial=300),
     thorough=dict(workers=16, cases=30000, min_nontrivial=5000, budget_s=3300,
                   fuzz=dict(target="f20_options", runs=20000, jobs=8, max_len=128, budget_s=3000)),
@@ -433,7 +433,7 @@ PROPS["C20"] = dict(
 )
 
 PROPS["C11"] = dict(
-    harness="c11_races", flavour="rel", extra_targets={"tsan": ["c11_tsan_driver"]}, parallel=4, model_guard="tools/check_omp_constructs.py",
+    harness="c11_races", flavour="rel", env={"VERIF_MAX_SHRINK_EVALS": "8"}, extra_targets={"tsan": ["c11_tsan_driver"]}, parallel=4, model_guard="tools/check_omp_constructs.py",
     quick=dict(workers=8, cases=480, min_nontrivial=200),
     thorough=dict(workers=4, cases=6000, min_nontrivial=2000, budget_s=3400),
     rule="(operator, shape class, thread count): operators ResidualGive/Take, SmootherGive/Take, ExtrapolatedSmootherGive/"
@@ -457,7 +457,7 @@ PROPS["C11"] = dict(
 )
 
 PROPS["C12"] = dict(
-    harness="c12_repro", flavour="rel",
+    harness="c12_repro", flavour="rel", env={"VERIF_MAX_SHRINK_EVALS": "100"},
     quick=dict(workers=16, cases=6400, min_nontrivial=200),
     thorough=dict(workers=8, cases=24000, min_nontrivial=3000, budget_s=3300),
     rule="Operators and shape classes as C11 (residual, smoothers, direct solvers, level caches, transfers below and above "
